@@ -27,7 +27,8 @@ func genC16(t *rapid.T) C16Case {
 	vs := []h.Spec{a}
 	n := rapid.IntRange(2, 3).Draw(t, "n")
 	for i := 1; i < n; i++ {
-		prev := vs[rapid.IntRange(0, len(vs)-1).Draw(t, "rel")]
+		pi := rapid.IntRange(0, len(vs)-1).Draw(t, "rel")
+		prev := vs[pi]
 		var s h.Spec
 		k := rapid.IntRange(0, 9).Draw(t, "kind")
 		switch {
@@ -57,6 +58,38 @@ func genC16(t *rapid.T) C16Case {
 			s.D = strings.TrimRight(s.D, "0")
 			s.P = uint(len(s.D)) + uint(rapid.IntRange(0, 40).Draw(t, "sp"))
 			s.M = h.GenMode(t, "m")
+			s.Hist = ""
+		case k == 6:
+			// word-aligned prefix relation: y = x followed by whole extra words whose values are chosen so that
+			// 64-bit sums or differences of them wrap (2^63 + 2^63, 2^63 + 2^62 + 2^62, (10^19-1) - 0 ...)
+			nw := rapid.IntRange(1, 4).Draw(t, "wa.n")
+			w := h.GenWords(t, "wa.w", nw)
+			if w[0] < h.Base/10 {
+				w[0] = h.Base/10 + w[0]%(h.Base/10)
+			}
+			extra := rapid.SampledFrom([][]uint64{
+				{1 << 63, 1 << 63}, {1 << 63, 1 << 62, 1 << 62}, {1 << 62, 1 << 62, 1 << 62, 1 << 62}, {1 << 63, 1<<63 - 1, 1},
+				{h.Base - 1, 1}, {h.Base / 2, h.Base / 2}, {0, 0, 1}, {h.Base - 1}, {1 << 63}, {0, 1 << 63, 1 << 63},
+			}).Draw(t, "wa.extra")
+			if rapid.IntRange(0, 3).Draw(t, "wa.rand") == 0 {
+				extra = h.GenWords(t, "wa.ew", rapid.IntRange(1, 4).Draw(t, "wa.en"))
+			}
+			render := func(ws []uint64) string {
+				le := make([]uint64, len(ws))
+				for i, x := range ws {
+					le[len(ws)-1-i] = x
+				}
+				return h.WordsToDigits(le)
+			}
+			base := h.Spec{F: "f", D: strings.TrimRight(render(w), "0"), E: prev.E, Neg: prev.Neg, M: h.GenMode(t, "wa.m")}
+			if base.D == "" {
+				base.D = "1"
+			}
+			base.P = uint(19 * nw)
+			vs[pi] = base
+			s = base
+			s.D = strings.TrimRight(render(append(append([]uint64{}, w...), extra...)), "0")
+			s.P = uint(19 * (nw + len(extra)))
 			s.Hist = ""
 		case k <= 7:
 			// same digits, neighbouring exponent; or same exponent, different digits
@@ -158,7 +191,7 @@ func checkC16(c C16Case, o *h.Obs) *h.Fail {
 	return nil
 }
 
-const ruleC16 = "rapid-generated pairs and triples: independent values (all forms, clean and dirty zeros/infinities), the same value stored with a different precision / mantissa length (extra low zero words) / mode / leftover accuracy, the same magnitude with opposite sign, values that differ only far down (appended or dropped low digits, across word boundaries), last digit +-1 on mantissas of different word counts, same digits at neighbouring exponents, same exponent with different digits. Oracle: exact order of the extended reals computed on (sign, digit string, exponent) without materialising powers of ten, -0 == +0; Cmp(x,y) == -Cmp(y,x); reflexivity; transitivity on triples; Sign, Signbit, IsZero, IsInf consistent with the value and with Cmp against zero; operands unchanged. Non-trivial = a pair with equal sign and exponent (mantissa comparison reached) whose mantissas have different word counts."
+const ruleC16 = "rapid-generated pairs and triples: independent values (all forms, clean and dirty zeros/infinities), the same value stored with a different precision / mantissa length (extra low zero words) / mode / leftover accuracy, the same magnitude with opposite sign, values that differ only far down (appended or dropped low digits, across word boundaries), last digit +-1 on mantissas of different word counts, a mantissa against the same mantissa followed by whole extra words chosen so that 64-bit sums/differences of words wrap (2^63+2^63, ...), same digits at neighbouring exponents, same exponent with different digits. Oracle: exact order of the extended reals computed on (sign, digit string, exponent) without materialising powers of ten, -0 == +0; Cmp(x,y) == -Cmp(y,x); reflexivity; transitivity on triples; Sign, Signbit, IsZero, IsInf consistent with the value and with Cmp against zero; operands unchanged. Non-trivial = a pair with equal sign and exponent (mantissa comparison reached) whose mantissas have different word counts."
 
 var propC16 = &h.Prop[C16Case]{ID: "C16", Rule: ruleC16, Gen: genC16, Check: checkC16, Matchers: map[string]func(C16Case) bool{}}
 
